@@ -378,7 +378,7 @@ def _sd_history(dual, seq, ops=None, maxlen=None):
         got = []
         for i in sd:
             got.append(i)
-            if len(got) > 50:
+            if len(got) > 5000:
                 break
         if got != model.items:
             msgs.append(f"{ctx}: traversal yields x={[i.GetX() for i in got]}, expected {[i.GetX() for i in model.items]}")
@@ -441,6 +441,35 @@ def sd_bfs(task):
     return len(seen), trans, viol, depth
 
 
+def long_history(task):
+    """one long scripted history (about 150 insertions in bit-reversal order with and without hints, a best-interval
+    request after every third operation - global and local alternating -, an overwritten characteristic now and then
+    with decreasing values, a refill every 25th step), judged step by step by the same model"""
+    dual, maxlen = task
+    ops = []
+    xs = [((int(format(i, "08b")[::-1], 2)) + 0.5) / 256.0 for i in range(1, 150)]
+    chars = [1.0, 2.0, NINF, 2.0, 1.0]
+    seq = []
+
+    def add(op):
+        ops.append(op)
+        seq.append(len(ops) - 1)
+    inserted = []
+    for i, x in enumerate(xs):
+        add(("ins", x, chars[i % 5], i % 3 != 0))
+        inserted.append(x)
+        if i % 3 == 1:
+            add(("bestlocal",) if dual and i % 2 else ("best",))
+        if i % 7 == 3:
+            add(("ovw", inserted[(i * 5) % len(inserted)], (2.5, 2.0000001, 0.0)[(i // 7) % 3]))
+        if i % 25 == 24:
+            add(("refill",))
+        if i % 40 == 39:
+            add(("clear",))
+    msgs, model, _ = sd_history(dual, seq, ops, maxlen)
+    return len(seq), msgs[:3]
+
+
 def first_ops(dual):
     ops = sd_ops(dual)
     _, model, enabled = sd_history(dual, [], ops)
@@ -467,6 +496,12 @@ def run(ctx):
         states += ns
         trans += nt
         res.merge_violations(viol)
+    # deep histories: hundreds of operations on one container (beyond any exhaustive depth)
+    ltasks = [(dual, ml) for dual in (False, True) for ml in (None, 2, 64)]
+    for t, (n, msgs) in zip(ltasks, pmap(long_history, ltasks)):
+        trans += n
+        for m in msgs:
+            res.add_violation(dict(driver="long", dual=t[0], maxlen=t[1], message=m, sig={}))
     res.cov = dict(
         states=states, transitions=trans, traces_validated_against_impl=trans + qn, evaluations=trans + qn,
         distinct_nontrivial=states,
@@ -484,6 +519,8 @@ def run(ctx):
 
 
 def replay(rec):
+    if rec["driver"] == "long":
+        return long_history((rec["dual"], rec["maxlen"]))[1]
     if rec["driver"] == "queue":
         return queue_history(rec["maxlen"], rec["seq"])[0]
     return sd_history(rec["dual"], rec["seq"], None, rec.get("maxlen"))[0]
